@@ -3,7 +3,7 @@
     end-to-end behaviour by the correspondence runs). *)
 From Coq Require Import ZArith List Bool.
 From Coq Require String.
-From AV Require Import Base.PyList Base.PyFloat Tok.Model Cli.Format Cli.FormatProofs Cli.Options Cli.OptionsProofs.
+From AV Require Import Base.PyList Base.PyFloat Tok.Model Cli.Format Cli.FormatProofs Cli.Options Cli.OptionsProofs Cli.Guards.
 Import ListNotations.
 Open Scope Z_scope.
 
@@ -54,6 +54,11 @@ Proof. exact OptionsProofs.C15_table_long. Qed.
 Theorem C15_table_unambiguous : table_ok options kwargs = true.
 Proof. exact OptionsProofs.C15_table_unambiguous. Qed.
 
+(** -j without -O is refused (ArgumentError, exit status 1) and nothing else is: the guard of make_kwargs, tied to
+    cmdline_util.py by symbolic evaluation on every run (TieGuards.v) *)
+Theorem C15_join_needs_save_stream : forall j s : bool, join_guard j s = true <-> (j = true /\ s = false).
+Proof. exact join_guard_spec. Qed.
+
 Print Assumptions C15_fields.
 Print Assumptions C15_field_widths.
 Print Assumptions C15_digits.
@@ -66,3 +71,4 @@ Print Assumptions C15_well_formed_meaning.
 Print Assumptions C15_table_short.
 Print Assumptions C15_table_long.
 Print Assumptions C15_table_unambiguous.
+Print Assumptions C15_join_needs_save_stream.
